@@ -67,6 +67,8 @@ pub fn enumerate(w: &World, s: &Spec, d: &mut D) -> Vec<ECase> {
         add(Syn::Lit(format!("{:?}", n), LK::Str(n.clone())), &format!("string:{}", class), hard, &mut out);
         add(Syn::Expr(n.clone(), "path".into()), &format!("path-expr:{}", class), false, &mut out);
         add(Syn::List(vec![Node::Item(n.clone(), Syn::Word)]), &format!("list-word:{}", class), hard, &mut out);
+        // the name as a lone string literal inside the list: a literal is not an item, whatever it spells
+        add(Syn::List(vec![Node::Lit(format!("{:?}", n), LK::Str(n.clone()))]), &format!("list-string-literal:{}", class), true, &mut out);
         add(Syn::List(vec![Node::Item(n.clone(), Syn::Lit("7".into(), LK::Int(7)))]), &format!("list-nv:{}", class), hard, &mut out);
         add(Syn::List(vec![Node::Item(n.clone(), Syn::List(vec![]))]), &format!("list-list:{}", class), true, &mut out);
         add(Syn::List(vec![Node::Item(n.clone(), Syn::Word), Node::Item(n.clone(), Syn::Word)]), &format!("list-2:{}", class), true, &mut out);
